@@ -38,7 +38,14 @@ def r_shared_c15_r5(run, tree):
     iof.check_sink(run, tree)
 
 
-RULES = [r_shared_c15_r5, r1, r2, r3, r4]
+def r6_preselection_history(run, tree):
+    run.rule("C15.R6", "the CPU pre-selection of a load does not depend on the selections of earlier loads: hilbert_cpu_list folded three times in one process "
+             "(predicates on x, y, z; then on y only; then on z and x) - axes without a predicate span the whole box every time (shared with C04)", "D7 history fold of io/hilbert.py::hilbert_cpu_list (module-level objects persist across the calls)", "", floor=3)
+    from . import hilbert_folds as hf
+    hf.check_hilbert_cpu_list_fold(run, tree)
+
+
+RULES = [r_shared_c15_r5, r1, r2, r3, r4, r6_preselection_history]
 
 
 def t_load_space(run, tree):
